@@ -439,16 +439,22 @@ PROPS["C20"] = {
     "groups": [
         {"id": "algebra", "quick": ["c20_and_all_pairs", "c20_and_triples_associative", "c20_predicates", "c20_negative_twin"],
          "timeout": 600},
+        {"id": "wrapper", "quick": ["wrapper::c20_compare_layouts_wrapper", "wrapper::c20_check_uses_own_layout_as_expected",
+                                    "wrapper::c20_wrapper_negative_twin"],
+         "kani_args": ["-Z", "stubbing"], "timeout": 600},
     ],
-    "negative": ["c20_negative_twin"],
+    "negative": ["c20_negative_twin", "wrapper::c20_wrapper_negative_twin"],
     "bounds": "all 9 ordered pairs and all 27 triples of verdicts through VerifyLayout::and (symbolic selectors), the strict and "
-              "relaxed predicates for all 3 verdicts, the repr(u8) discriminants",
-    "outside": "the accept/reject core of the property (identical interfaces => Valid; any single-edit variant => never Valid; a "
-               "missing description => Unknown): compare_layouts calls abi_stable::check_layout_compatibility and the Kani compiler "
-               "panics while generating code for that call graph (kani-compiler/src/intrinsics.rs:243, re-confirmed by a probe "
-               "harness on compare_layouts(None, None)); hand-translating abi_stable's checker is out of reach, and running it on "
-               "concrete pairs would be enumeration of concrete runs, not this technique",
-    "assumptions": KANI_ASSUME,
+              "relaxed predicates for all 3 verdicts, the repr(u8) discriminants; compare_layouts and VerifyLayout::check::<u32> "
+              "for every combination of {missing, layout of u32, layout of u64} x {same} x {the comparison accepts, rejects}",
+    "outside": "the accept/reject decision of abi_stable's own recursive comparison and the layout descriptions the derive emits "
+               "for generated structs (identical interfaces => Valid; any single-edit variant => never Valid): the Kani compiler "
+               "panics while generating code for abi_stable::check_layout_compatibility (kani-compiler/src/intrinsics.rs:243); "
+               "hand-translating abi_stable's checker is out of reach, and running it on concrete pairs would be enumeration of "
+               "concrete runs, not this technique",
+    "assumptions": KANI_ASSUME + ["abi_stable::abi_stability::check_layout_compatibility is replaced (kani::stub, -Z stubbing) by a "
+                                 "function of the same signature returning an arbitrary verdict and recording its arguments; natively "
+                                 "(replay) the real comparison runs on the u32/u64 layouts"],
 }
 
 def _run_c09(prop, spec, tier):
